@@ -433,6 +433,17 @@ fn base_entries() -> Vec<(&'static str, &'static Compiled)> {
             ),
         ),
         (
+            "non-ascii-names",
+            compile(
+                e(vec![
+                    val(DENIED_NON_ASCII, metric(vec![Obs::U(4)], UnitD::Count, &[], FlagD::None)),
+                    val("Ünï😀", metric(vec![Obs::U(5)], UnitD::None, &[("d1", "x")], FlagD::None)),
+                    val("延迟", ValD::Str(s("值"))),
+                ]),
+                &[],
+            ),
+        ),
+        (
             "empty-values",
             compile(
                 e(vec![
@@ -716,7 +727,10 @@ const ED2: &[(&str, &str)] = &[("", "q"), ("d1", "r")];
 const GD1: &[(&str, &str)] = &[("gd1", "s")];
 const GD2: &[(&str, &str)] = &[("gd2", "t"), ("d1", "u")];
 const ID1: &[(&str, &str)] = &[("id1", "w")];
-const DENY: &[&str] = &[DENIED, "Absent"];
+/// (a deny-listed name with multi-byte characters: 6 characters, 8 bytes, as long in characters
+/// as the longest ASCII name of the list)
+const DENIED_NON_ASCII: &str = "Größen";
+const DENY: &[&str] = &[DENIED, "Absent", DENIED_NON_ASCII];
 
 fn deny_set() -> HashSet<Cow<'static, str>> {
     DENY.iter().map(|n| Cow::Borrowed(*n)).collect()
